@@ -49,7 +49,8 @@
 //!   G <iter> <op> cur=<rev> px=<n> s=<F.K=V,..> u=<F.K,..>  probe record of this schedule
 //!   F <iter> kind=<deadlock|maxsteps|panic|hang> sched=<file|-> [unwound=<code>] msg=<text>
 //!   END id iters=<n> failures=<f>
-//!   SKIPPED id
+//!   TAINTED                            (exit status 4) an execution of the previous case failed: the
+//!                                      cases behind it must be run in a fresh process
 //! <results> ::= op:who=r,r/who=r;op:...   who = m (main handle) | thread index; r = value | pCODE
 //!   (p2 cycle panic, p3 backdate assertion, p4 too many iterations, p5 injected panic,
 //!    p7 Cancelled::PropagatedPanic, p8 Cancelled::PendingWrite, p99 unclassified)
@@ -1494,10 +1495,14 @@ fn main() {
         if args.only.as_deref().is_some_and(|o| o != case.id) {
             continue;
         }
-        if FAILURES.load(Ordering::SeqCst) >= 15 {
-            println!("CASE {}", case.id);
-            println!("SKIPPED {}", case.id);
-            continue;
+        if FAILURES.load(Ordering::SeqCst) > 0 {
+            // A failed shuttle execution (deadlock, step bound, or an execution in which something
+            // unwound) leaks its tasks together with the locks they hold: every later execution
+            // in this process can fail spuriously (shuttle's own `state.holder.is_none()`,
+            // poisoned locks).  The remaining cases are left to a fresh process: exit status 4.
+            println!("TAINTED");
+            std::io::stdout().flush().unwrap();
+            std::process::exit(4);
         }
         #[cfg(feature = "shuttle")]
         if let Some(p) = &args.replay_schedule {
